@@ -1,3 +1,115 @@
-import ICal.Model.Line
+/-
+  C08 — property parameters survive serialising and parsing: same names (upper-cased), same values,
+  same order; a single string holding a comma stays distinct from a list; every value holding
+  `,` `;` `:` is emitted inside double quotes.
+  Property theorems only; helper lemmas and the definitions `Balanced`, `ValueOk`, `PValOk`,
+  `ParamDomain`, `canonVal`, `canon`, `KeySorted` are in ICal/Lemmas/Params.lean.
+  `dquote`, `qJoin`, `qSplit`, `parseParamVals`, `paramsToIcal`, `paramsFromIcal` are the models of
+  dquote / q_join / q_split / the value loop of Parameters.from_ical / Parameters.to_ical /
+  Parameters.from_ical, built on the *generated* character classes (ICal.Gen, regenerated from
+  /repo each run).
+-/
+import ICal.Lemmas.Params
 namespace ICal.C08
+
+/-- `,` `;` `:` are in QUOTABLE -/
+theorem quotable_delims :
+    inClass Gen.quotable ',' = true ∧ inClass Gen.quotable ';' = true ∧ inClass Gen.quotable ':' = true := by
+  decide
+
+/-- A value holding a comma, semicolon or colon is emitted inside double quotes (after the
+    substitution of `'` for `"`). Unbounded in `v`. -/
+theorem dquote_quotes (v : Str) (h : ∃ c ∈ v, c = ',' ∨ c = ';' ∨ c = ':') :
+    dquote v = DQ :: rep1 DQ ['\''] v ++ [DQ] := by
+  rw [dquote_def, if_pos]
+  obtain ⟨c, hc, hcase⟩ := h
+  rw [List.any_eq_true]
+  have hne : c ≠ DQ := by rcases hcase with e | e | e <;> (rw [e]; decide)
+  refine ⟨c, mem_rep1_of_ne DQ _ c hne v hc, ?_⟩
+  rcases hcase with e | e | e <;> (rw [e]; decide)
+
+/-- `q_split` inverts joining on `sep` for segments that hold no `sep` outside double quotes and
+    close their quotes. (`sep ≠ DQ` is necessary: `q_split('a"b', '"')` is `['a"b']`.) -/
+theorem qsplit_join (sep : Char) (hs : sep ≠ DQ) (segs : List Str) (hne : joinWith [sep] segs ≠ [])
+    (hb : ∀ s ∈ segs, Balanced sep s) : qSplit (joinWith [sep] segs) sep = segs :=
+  qSplit_join sep hs segs hne hb
+
+/-- `q_split(item, '=', maxsplit=1)` cuts `KEY=value` after the key, whatever the value holds. -/
+theorem qsplit_key_val (k v : Str) (hk : validToken k = true) :
+    qSplit (k ++ '=' :: v) '=' (some 1) = [k, v] :=
+  qSplit_key_val k v hk
+
+/-- What `dquote` returns never shows `,` or `;` outside double quotes — for every string. -/
+theorem dquote_balanced (v : Str) : Balanced ',' (dquote v) ∧ Balanced ';' (dquote v) :=
+  ⟨dquote_balanced_any ',' quotable_comma (by decide) v, dquote_balanced_any ';' quotable_semi (by decide) v⟩
+
+/-- A whole item `KEY=value` (string or list value) never shows `;` outside double quotes. -/
+theorem item_balanced (k : Str) (v : PVal) (hk : validToken k = true) :
+    Balanced ';' (k ++ ['='] ++ paramValue v) := by
+  refine ((balanced_plain ';' k (validToken_noDQ _ hk) (validToken_noSep _ hk)).append
+    (by decide)).append ?_
+  exact paramValue_balanced ';' quotable_semi (by decide) (by decide) v
+
+/-- The values of one parameter: join-and-split returns the list item by item, unquoted.
+    (`qJoin xs = []` only for `xs = [[]]`, see `param_vals_empty`.) -/
+theorem param_vals_roundtrip (xs : List Str) (hne : xs ≠ []) (hd : ∀ x ∈ xs, ValueOk x) (hq : qJoin xs ≠ []) :
+    parseParamVals false (qSplit (qJoin xs) ',') = some xs := by
+  have _ := hne
+  exact parse_qJoin xs hd hq
+
+/-- The one list whose text is empty. -/
+theorem param_vals_empty (xs : List Str) (hne : xs ≠ []) (hq : qJoin xs = []) : xs = [[]] :=
+  qJoin_eq_nil xs hne hq
+
+/-- ASCII upper-casing (the model's `upper`) is idempotent. -/
+theorem upper_idempotent (k : Str) : upper (upper k) = upper k := upper_idem k
+
+/-- Main theorem: parsing the serialised map gives the map sorted by key, every value unchanged
+    except that a one-element list comes back as its element (`canonVal`). Unbounded in the number
+    of parameters, list lengths and string lengths. -/
+theorem params_roundtrip (m : Params) (hd : ParamDomain m) :
+    paramsFromIcal (paramsToIcal m true) false = some (canon m) :=
+  fromIcal_toIcal m hd
+
+/-- Order: the parsed keys are sorted in code point order, nothing is lost or added, and every
+    key reads back its value (`canonVal` keeps a list of two or more items as the same list, in
+    the same order). -/
+theorem params_order (m : Params) (hd : ParamDomain m) :
+    ∃ p, paramsFromIcal (paramsToIcal m true) false = some p ∧
+      List.Pairwise (fun a b => strLe a b = true) (p.map Prod.fst) ∧
+      p.length = m.length ∧
+      ∀ kv ∈ m, p.get? kv.1 = some (canonVal kv.2) :=
+  ⟨canon m, fromIcal_toIcal m hd, canon_sorted m, canon_length m, fun kv h => canon_get? m hd kv h⟩
+
+/-- A single string stays a single string (even when it holds a comma), and a list of two or
+    more strings stays that list. -/
+theorem params_values (m : Params) (hd : ParamDomain m) :
+    ∃ p, paramsFromIcal (paramsToIcal m true) false = some p ∧
+      (∀ k x, (k, PVal.one x) ∈ m → p.get? k = some (PVal.one x)) ∧
+      (∀ k xs, (k, PVal.many xs) ∈ m → 2 ≤ xs.length → p.get? k = some (PVal.many xs)) := by
+  refine ⟨canon m, fromIcal_toIcal m hd, ?_, ?_⟩
+  · intro k x h
+    exact canon_get? m hd (k, .one x) h
+  · intro k xs h hl
+    have := canon_get? m hd (k, .many xs) h
+    match xs, hl with
+    | a :: b :: r, _ => exact this
+
+/-! Non-vacuity: a map with a quoted value holding `,;:`, a list with a quoted item, an empty
+    value, a one-element list and a lower-case plain value lies in the domain; the round trip
+    on it is checked by evaluation. -/
+example : ParamDomain sampleParams := by decide
+example : paramsToIcal sampleParams true =
+    "A.1=one;CN=\"x,;: y\";E=;X-B=\"a,b\",c;Z_=,".toList := by decide
+example : paramsFromIcal (paramsToIcal sampleParams true) false = some (canon sampleParams) := by decide
+example : canon sampleParams =
+  [(['A', '.', '1'], .one ['o', 'n', 'e']),
+   (['C', 'N'], .one ['x', ',', ';', ':', ' ', 'y']),
+   (['E'], .one []),
+   (['X', '-', 'B'], .many [['a', ',', 'b'], ['c']]),
+   (['Z', '_'], .many [[], []])] := by decide
+example : Balanced ';' ("CN=\"x,;: y\"".toList) ∧ ¬ Balanced ';' ("CN=x;y".toList) := by decide
+example : ∃ c ∈ ['x', ',', ';', ':', ' ', 'y'], c = ',' ∨ c = ';' ∨ c = ':' := ⟨',', by decide, Or.inl rfl⟩
+example : ValueOk ['x', ',', ';', ':', ' ', 'y'] ∧ ¬ ValueOk ['a', '"'] ∧ ¬ ValueOk ['a', '\n'] := by decide
+
 end ICal.C08
